@@ -107,10 +107,10 @@ def ref_level(rng, po):
     """Specificity of range `rng` = (type, subtype, params, q) for parsed offer po; 0 = no match."""
     rt, rs, rp, _ = rng
     t, st, ps = po
-    if rt == t and rs == st and rp == ps:
-        return 4
-    if rt == t and rs == st and not rp:
-        return 3
+    if rt == t and rs == st:
+        # identical type/subtype: the range's parameters must be absent or identical (for a concrete offer nothing
+        # below can apply anyway; for a hand-built wildcard AcceptOffer this is webob's pass-through behaviour)
+        return 4 if rp == ps else (3 if not rp else 0)
     if rs == "*" and rt == t:
         return 2
     if rt == "*" and rs == "*":
@@ -873,6 +873,308 @@ def oracle_order_independence(cases):
 
 
 # ----------------------------------------------------------------------------------------------
+# Configurations (every way of obtaining the header object), argument shapes, value domains
+# ----------------------------------------------------------------------------------------------
+ENV_KEY = {"accept": "HTTP_ACCEPT", "charset": "HTTP_ACCEPT_CHARSET", "encoding": "HTTP_ACCEPT_ENCODING"}
+HDR_NAME = {"accept": "Accept", "charset": "Accept-Charset", "encoding": "Accept-Encoding"}
+REQ_ATTR = {"accept": "accept", "charset": "accept_charset", "encoding": "accept_encoding"}
+HOWS = ["create", "direct-class", "subclass", "create-from-object", "copy", "request-headers", "request-environ-later",
+        "request-setter-str", "request-setter-object", "request-blank-keyword", "request-environ-replaced", "setter-list"]
+
+
+def valid_class(family):
+    from webob import acceptparse as ap
+    return {"accept": ap.AcceptValidHeader, "charset": ap.AcceptCharsetValidHeader,
+            "encoding": ap.AcceptEncodingValidHeader}[family]
+
+
+def setter_value(family, struct):
+    """The structure as the list form accepted by the request attribute setters (webob renders the header itself)."""
+    if family == "accept":
+        out = []
+        for t, st, ps, q in struct:
+            mr = t + "/" + st + "".join(';%s="%s"' % (n, v.replace("\\", "\\\\").replace('"', '\\"')) for n, v in ps)
+            out.append((mr, q / 1000.0, ""))
+        return out
+    return [(name, q / 1000.0) for name, q in struct]
+
+
+def obtain(family, header, how, struct=None):
+    """The header object for `header`, obtained in the way `how`; None when that way does not apply."""
+    from webob import Request
+    base = make_header(family, header)
+    vc = valid_class(family)
+    if how == "create":
+        return base
+    if how == "direct-class":
+        return vc(header_value=header) if isinstance(base, vc) else type(base)(*([] if header is None else [header]))
+    if how == "subclass":
+        if not isinstance(base, vc):
+            return None
+        return type("Sub", (vc,), {})(header)
+    if how == "create-from-object":
+        return make_header(family, base)
+    if how == "copy":
+        return base.copy()
+    attr, key, name = REQ_ATTR[family], ENV_KEY[family], HDR_NAME[family]
+    if how == "request-headers":
+        return getattr(Request.blank("/", headers={} if header is None else {name: header}), attr)
+    if how == "request-environ-later":
+        req = Request.blank("/")
+        getattr(req, attr)                      # read once before the key exists
+        if header is not None:
+            req.environ[key] = header
+        return getattr(req, attr)
+    if how == "request-environ-replaced":
+        req = Request.blank("/", headers={name: "zz/yy;q=0.3" if family == "accept" else "zz;q=0.3"})
+        getattr(req, attr).acceptable_offers(["zz/yy"] if family == "accept" else ["zz"])
+        if header is None:
+            del req.environ[key]
+        else:
+            req.environ[key] = header
+        return getattr(req, attr)
+    if how == "request-setter-str":
+        req = Request.blank("/", headers={name: "zz/yy" if family == "accept" else "zz"})
+        setattr(req, attr, header)
+        return getattr(req, attr)
+    if how == "request-setter-object":
+        req = Request.blank("/")
+        setattr(req, attr, base)
+        return getattr(req, attr)
+    if how == "request-blank-keyword":
+        return getattr(Request.blank("/", **{attr: header}), attr)
+    if how == "setter-list":
+        if struct is None or not struct or not isinstance(base, vc):
+            return None
+        req = Request.blank("/")
+        setattr(req, attr, setter_value(family, struct))
+        return getattr(req, attr)
+    raise ValueError(how)
+
+
+class StrSub(str):
+    pass
+
+
+def shaped_calls(family, h, offers):
+    """(shape name, answer) for every accepted way of passing the same offers."""
+    objs = [mk_offer(o) if family == "accept" else o for o in offers]
+    out = [("list-positional", catch(lambda: canon_result(h.acceptable_offers(list(objs))))),
+           ("list-keyword", catch(lambda: canon_result(h.acceptable_offers(offers=list(objs))))),
+           ("tuple", catch(lambda: canon_result(h.acceptable_offers(tuple(objs))))),
+           ("str-subclass", catch(lambda: canon_result(
+               h.acceptable_offers([StrSub(o) if type(o) is str else o for o in objs])))),
+           ("equal-not-identical", catch(lambda: canon_result(
+               h.acceptable_offers([("".join(list(o)) if type(o) is str else type(o)(*o)) for o in objs]))))]
+    return out
+
+
+def identity_problem(family, h, offers):
+    """Every returned offer IS (identity) an element of the offers passed; for equal duplicates the first one."""
+    objs = [mk_offer(o) if family == "accept" else ("".join(list(o)) if o else o) for o in offers]
+    res = catch(lambda: h.acceptable_offers(objs))
+    if isinstance(res, Err):
+        return None
+    for o, _q in res:
+        if not any(o is x for x in objs):
+            return "returned offer %r is not one of the objects passed in" % (o,)
+        if family == "accept" and isinstance(h, valid_class(family)):
+            first = next(x for x in objs if x == o and type(x) is type(o))
+            if o is not first:
+                return "returned offer %r is not the FIRST of the equal objects passed in" % (o,)
+    return None
+
+
+def oracle_config(family, header, struct, offers):
+    """All constructions x all argument shapes must answer like the reference (valid header of known structure) and like
+    the plain create_*_header object."""
+    base = make_header(family, header)
+    plain = catch(lambda: canon_result(base.acceptable_offers([mk_offer(o) if family == "accept" else o for o in offers])))
+    want = plain
+    if struct is not None and isinstance(base, valid_class(family)):
+        if family == "accept":
+            want = [[canon_ref_offer(o), q] for o, q in ref_accept(struct, offers)]
+        else:
+            want = ref_simple(struct, offers, family == "encoding")
+        if plain != want:
+            return (family + ":config:create", "%s header %r offers %r gave %r, the property says %r" % (family, header, offers, plain, want))
+    for how in HOWS:
+        try:
+            h = obtain(family, header, how, struct)
+        except Exception as e:  # noqa
+            return (family + ":config:" + how, "obtaining the %s header object for %r via %s raised %s: %s"
+                    % (family, header, how, type(e).__name__, e))
+        if h is None:
+            continue
+        if type(h).__name__ not in (type(base).__name__, "Sub"):
+            return (family + ":config:" + how, "%s header %r obtained via %s is a %s, create_* gives a %s"
+                    % (family, header, how, type(h).__name__, type(base).__name__))
+        for shape, got in shaped_calls(family, h, offers):
+            if got != want:
+                return (family + ":config:%s:%s" % (how, shape),
+                        "%s header %r obtained via %s, offers %r passed as %s: acceptable_offers gave %r, expected %r"
+                        % (family, header, how, offers, shape, got, want))
+        if family == "accept":
+            hv = catch(lambda: [h.accept_html(), h.accepts_html])
+            bw = catch(lambda: [base.accept_html(), base.accepts_html])
+            if hv != bw:
+                return ("accept:config:%s:accept_html" % how, "Accept %r via %s: accept_html/accepts_html %r, expected %r" % (header, how, hv, bw))
+    idp = identity_problem(family, base, offers)
+    if idp:
+        return (family + ":shape:identity", "%s header %r offers %r: %s" % (family, header, offers, idp))
+    if family == "accept":
+        # pre-parsed offers (the documented use of AcceptOffer): same verdicts, the AcceptOffer objects are returned
+        from webob.acceptparse import Accept
+        pre, keep = [], []
+        for o in offers:
+            if isinstance(o, str):
+                po = catch(lambda: Accept.parse_offer(o))
+                if isinstance(po, Err):
+                    continue
+                pre.append(po)
+                keep.append(o)
+        got = catch(lambda: [[[x.type, x.subtype, [list(p) for p in x.params]], q1000(q)] for x, q in base.acceptable_offers(pre)])
+        ref = ref_accept(struct, [("obj", p.type, p.subtype, [list(x) for x in p.params]) for p in pre]) \
+            if struct is not None and isinstance(base, valid_class(family)) else None
+        if ref is not None and got != [[canon_ref_offer(o), q] for o, q in ref]:
+            return ("accept:shape:pre-parsed", "Accept %r with offers %r pre-parsed by Accept.parse_offer gave %r, expected %r"
+                    % (header, keep, got, [[canon_ref_offer(o), q] for o, q in ref]))
+        from webob.acceptparse import MIMEAccept
+        import warnings
+        with warnings.catch_warnings():
+            warnings.simplefilter("ignore")
+            mv = catch(lambda: MIMEAccept(header).accept_html()) if header is not None else None
+        if header is not None and mv != catch(lambda: base.accept_html()):
+            return ("accept:config:MIMEAccept:accept_html", "MIMEAccept(%r).accept_html() is %r, the header object says %r"
+                    % (header, mv, base.accept_html()))
+    return None
+
+
+# --- outside the modelled / stated domain: what remains meaningful is checked on the real code -----------------
+WIDE = ["u\u017f-ascii", "compre\u017f\u017f", "\u212a", "\u0130", "utf-8\u0100", "\u1e9e", "\u017f", "\U0001d4d0", "K\u0301", "gz\u0131p", "\u212a".lower()]
+
+
+def py_lower_ref_simple(entries, offers, encoding):
+    """ref_simple with CPython's str.lower as the case folding (what the implementation documents nowhere but does)."""
+    out = []
+    for idx, o in enumerate(offers):
+        lo = o.lower()
+        q = None
+        for name, qq in entries:
+            if name != "*" and name.lower() == lo:
+                q = qq
+                break
+        else:
+            for name, qq in entries:
+                if name == "*":
+                    q = qq
+                    break
+            else:
+                if encoding and lo == "identity":
+                    q = 1000
+        if q:
+            out.append((o, q, idx))
+    out.sort(key=lambda e: (-e[1], e[2]))
+    return [[o, q] for o, q, _ in out]
+
+
+def sane_result(res, objs):
+    """Weak postcondition for inputs outside the statement: a list of (offer-from-the-input, 0<q<=1) sorted by q."""
+    if not isinstance(res, list):
+        return "result is %r" % (res,)
+    last = None
+    for item in res:
+        if not (isinstance(item, tuple) and len(item) == 2):
+            return "malformed item %r" % (item,)
+        o, q = item
+        if not any(o is x for x in objs):
+            return "returned offer %r was not passed in" % (o,)
+        if not (0 < q <= 1):
+            return "quality %r out of (0, 1]" % (q,)
+        if last is not None and q > last:
+            return "not sorted by quality"
+        last = q
+    return None
+
+
+def oracle_outside(family, header, struct, offers, rng):
+    h = make_header(family, header)
+    valid = struct is not None and isinstance(h, valid_class(family))
+    objs = [mk_offer(o) if family == "accept" else o for o in offers]
+    # (1) non-sequence iterables: the right answer or TypeError, never a wrong answer
+    plain = catch(lambda: canon_result(h.acceptable_offers(list(objs))))
+    for name, arg in (("iterator", lambda: iter(list(objs))), ("generator", lambda: (o for o in objs))):
+        got = catch(lambda: canon_result(h.acceptable_offers(arg())))
+        if got != plain and got != Err("TypeError"):
+            return (family + ":outside:" + name, "%s header %r offers %r passed as %s gave %r (list gives %r)"
+                    % (family, header, offers, name, got, plain))
+    # (2) str offers beyond latin-1
+    wide = list(offers) + [rng.choice(WIDE) for _ in range(2)]
+    rng.shuffle(wide)
+    if family == "accept":
+        wide = [o if isinstance(o, tuple) else o for o in wide] + ["text/html;a=\"\u0100\"", "te\u212at/html", "text/html\u2028"]
+        got = catch(lambda: canon_result(h.acceptable_offers([mk_offer(o) for o in wide])))
+        want = [[canon_ref_offer(o), q] for o, q in ref_accept(struct, wide)] if valid else \
+            [[canon_ref_offer(o), 1000] for o in wide if offer_parse_ref(o) is not None]
+    else:
+        # spellings of the header's own names with characters whose case mappings leave ASCII or arrive in it:
+        # U+017F LONG S (lower: itself, casefold: s), U+212A KELVIN (lower: k), U+0130 / U+0131 dotted / dotless i
+        for name, _q in (struct or []):
+            for a, b in (("s", "\u017f"), ("S", "\u017f"), ("k", "\u212a"), ("K", "\u212a"), ("i", "\u0131"), ("I", "\u0130")):
+                if a in name:
+                    wide.append(name.replace(a, b, 1))
+        got = catch(lambda: canon_result(h.acceptable_offers(list(wide))))
+        want = py_lower_ref_simple(struct, wide, family == "encoding") if valid else [[o, 1000] for o in wide]
+    if got != want:
+        return (family + ":outside:non-latin1-offers", "%s header %r offers %r gave %r, expected %r" % (family, header, wide, got, want))
+    # (3) non-normalised AcceptOffer objects are passed through as they are (no normalisation, no validation)
+    if family == "accept":
+        odd = list(offers) + [non_normal_obj(rng), non_normal_obj(rng)]
+        got = catch(lambda: canon_result(h.acceptable_offers([mk_offer(o) for o in odd])))
+        want = [[canon_ref_offer(o), q] for o, q in ref_accept(struct, odd)] if valid else \
+            [[canon_ref_offer(o), 1000] for o in odd if offer_parse_ref(o) is not None]
+        if got != want:
+            return ("accept:outside:raw-AcceptOffer", "Accept %r offers %r gave %r, pass-through semantics give %r" % (header, odd, got, want))
+    # (4) offers that are not str: only TypeError / AttributeError, or a sane result
+    for bad in (b"text/html", None, 7, ("text", "html"), ["text/html"]):
+        mixed = list(objs) + [bad]
+        try:
+            res = h.acceptable_offers(mixed)
+        except (TypeError, AttributeError):
+            continue
+        except Exception as e:  # noqa
+            return (family + ":outside:non-str-offer", "%s header %r with offer %r raised %s" % (family, header, bad, type(e).__name__))
+        msg = sane_result(res, mixed)
+        if msg:
+            return (family + ":outside:non-str-offer", "%s header %r with offer %r: %s" % (family, header, bad, msg))
+    # (5) header text that no WSGI server can deliver (code points >= 256): an invalid-header object, every offer acceptable
+    for weird in ("text/html\u0100", "\u212a", "utf-8, \u00e9\u0100"):
+        try:
+            hw = make_header(family, weird)
+            res = hw.acceptable_offers(list(objs))
+        except Exception as e:  # noqa
+            return (family + ":outside:non-latin1-header", "header %r raised %s" % (weird, type(e).__name__))
+        if isinstance(hw, valid_class(family)) or len(res) != len([o for o in offers if family != "accept" or offer_parse_ref(o) is not None]):
+            return (family + ":outside:non-latin1-header", "header %r gave a %s answering %r" % (weird, type(hw).__name__, res))
+    return None
+
+
+REGRESSION = [
+    ("accept", "*/*;q=0.1, text/*;q=0.5, text/html;q=0.9", [("*", "*", [], 100), ("text", "*", [], 500), ("text", "html", [], 900)],
+     ["text/html", "text/plain", "image/png"]),
+    ("accept", "*/*;q=0.9, text/*;q=0.1", [("*", "*", [], 900), ("text", "*", [], 100)], ["text/plain", "image/png", "text/html"]),
+    ("accept", "*/*;q=0, text/*, */*", [("*", "*", [], 0), ("text", "*", [], 1000), ("*", "*", [], 1000)], ["image/png", "text/x"]),
+    ("accept", "*/*;q=0.5, text/html;q=0, text/*;q=0.7", [("*", "*", [], 500), ("text", "html", [], 0), ("text", "*", [], 700)],
+     ["text/html", "text/xml", "a/b"]),
+    ("charset", "utf-8;q=0.5, UTF-8;q=0.9, Utf-8;q=0", [("utf-8", 500), ("UTF-8", 900), ("Utf-8", 0)], ["UTF-8", "utf-8", "x"]),
+    ("charset", "UTF-8;q=0, utf-8;q=0.9, *;q=0.1", [("UTF-8", 0), ("utf-8", 900), ("*", 100)], ["utf-8", "Utf-8", "x"]),
+    ("encoding", "GZIP;q=0.2, gzip;q=1, identity;q=0, IDENTITY", [("GZIP", 200), ("gzip", 1000), ("identity", 0), ("IDENTITY", 1000)],
+     ["gzip", "GZip", "identity", "Identity"]),
+    ("encoding", "*;q=0, *;q=1, Identity;q=0.5", [("*", 0), ("*", 1000), ("Identity", 500)], ["identity", "br"]),
+]
+
+
+# ----------------------------------------------------------------------------------------------
 # Regenerated obligations: character classes and the HTML offer lists, read from the live source
 # ----------------------------------------------------------------------------------------------
 def gen_text():
@@ -957,6 +1259,15 @@ def run_case_oracle(case):
     if k == "nohdr":
         offers = [tuple(o) if isinstance(o, list) else o for o in case["offers"]]
         return oracle_nohdr(k, case["header"], offers)
+    if k in ("config", "outside"):
+        fam, header, struct = case["family"], case["header"], case.get("structure")
+        offers = fix_offers(case["offers"])
+        if struct is not None:
+            struct = [(t, st, [tuple(p) for p in ps], q) for t, st, ps, q in struct] if fam == "accept" else [tuple(e) for e in struct]
+        if k == "config":
+            return oracle_config(fam, header, struct, offers)
+        import random
+        return oracle_outside(fam, header, struct, offers, random.Random(case.get("rseed", 0)))
     if k == "history":
         return oracle_history(case["family"], case["header"], case.get("structure"), fix_calls(case["calls"]))
     if k == "order":
@@ -1024,8 +1335,13 @@ ORACLE_ONLY = [_AP + x for x in (
     "AcceptCharsetValidHeader.__iter__", "AcceptCharsetValidHeader.__str__", "AcceptCharsetValidHeader.copy",
     "AcceptEncodingValidHeader.best_match", "AcceptEncodingValidHeader.quality", "AcceptEncodingValidHeader.__contains__",
     "AcceptEncodingValidHeader.__iter__", "AcceptEncodingValidHeader.__str__", "AcceptEncodingValidHeader.copy",
-)] + ["webob.acceptparse:accept_property", "webob.request:BaseRequest.accept",
-      "webob.exc:WSGIHTTPException.generate_response"]
+    # other ways of obtaining the header objects (configuration sweep)
+    "MIMEAccept.accept_html", "AcceptNoHeader.copy", "AcceptInvalidHeader.copy",
+    "Accept._python_value_to_header_str", "AcceptCharset._python_value_to_header_str",
+    "AcceptEncoding._python_value_to_header_str",
+    "accept_property", "accept_charset_property", "accept_encoding_property",
+)] + ["webob.request:BaseRequest.accept", "webob.request:BaseRequest.accept_charset", "webob.request:BaseRequest.accept_encoding",
+      "webob.request:BaseRequest.blank", "webob.exc:WSGIHTTPException.generate_response"]
 
 
 def run(ctx):
@@ -1044,9 +1360,13 @@ def run(ctx):
 
     # parse_offer
     cases = []
-    for s in gen_offer_strings(rng, ctx.scale(1700, 6000)):
-        if any(ord(c) > 255 for c in s):
+    seen = set()
+    for k, s in enumerate(gen_offer_strings(rng, ctx.scale(1700, 6000))):
+        if any(ord(c) > 255 for c in s) or s in seen:
             continue
+        if not ctx.thorough and k % 5 in (1, 3):      # quick tier: a 3/5 sample (the oracle sweeps all of them)
+            continue
+        seen.add(s)
         cases.append((cstr(s), impl_parse_offer(s), {"kind": "parse_offer", "offer": s}))
     bad = ctx.corr("parse_offer", IMPORTS, "c04_parse_offer", cases, in_type="str")
     corr_followup(ctx, "parse_offer", cases, bad)
@@ -1064,7 +1384,7 @@ def run(ctx):
             continue
         j["parsed"] = jparsed(h.parsed)
         cases.append((cpair(craw_ranges(h.parsed), clist(coffer(o) for o in offers)), got, j))
-        if len(hcases) < n // 2:
+        if len(hcases) < n // 3:
             hcases.append((craw_ranges(h.parsed), bool(h.accept_html()), j))
     bad = ctx.corr("accept", IMPORTS, "(fun c => c04_accept (fst c) (snd c))", cases, in_type="(list raw_range * list offer)")
     corr_followup(ctx, "accept", cases, bad)
@@ -1118,12 +1438,44 @@ def run(ctx):
         bad = ctx.corr(family + "_history", IMPORTS, "(fun c => VList (map (%s (fst c)) (snd c)))" % fn, cases, in_type=ity)
         corr_followup(ctx, family + "_history", cases, bad)
 
+    # ------------------------------------------------------------------ oracle: configurations, shapes, outside domain
+    r4 = ctx.sub_rng("oracle-config")
+
+    def jcs(kind, family, header, struct, offers, **kw):
+        d = {"kind": kind, "family": family, "header": header, "structure": None if struct is None else jsonable_struct(struct),
+             "offers": [list(o) if isinstance(o, tuple) else o for o in offers]}
+        d.update(kw)
+        return d
+    for family, header, struct, offers in REGRESSION:
+        report(ctx, oracle_config(family, header, struct, offers), jcs("config", family, header, struct, offers), "regression")
+    ctx.oracle_count("regression", len(REGRESSION), len(REGRESSION))
+    for family in FAMILIES:
+        cnt = 0
+        for i in range(ctx.scale(350, 8000)):
+            if family == "accept":
+                header, struct, offers = gen_accept_case(r4)
+            else:
+                header, struct, offers = gen_simple_case(r4, family == "encoding")
+            m = r4.random()
+            if m < 0.1:
+                header, struct = None, None
+            elif m < 0.2:
+                header, struct = r4.choice(["text/html;", "a b", header + ";;", "\x00", "q=1"]), None
+            report(ctx, oracle_config(family, header, struct, offers), jcs("config", family, header, struct, offers), family + "-config")
+            if i % 2 == 0:
+                rs = r4.randrange(10 ** 6)
+                report(ctx, oracle_outside(family, header, struct, offers, __import__("random").Random(rs)),
+                       jcs("outside", family, header, struct, offers, rseed=rs), family + "-outside")
+            cnt += 1
+        ctx.oracle_count(family + "-config", cnt, cnt)
+        ctx.oracle_count(family + "-outside", (cnt + 1) // 2, (cnt + 1) // 2)
+
     # ------------------------------------------------------------------ oracle
     r2 = ctx.sub_rng("oracle")
     r3 = ctx.sub_rng("oracle-history")
     for family in FAMILIES:
         cnt = 0
-        for _ in range(ctx.scale(2500, 40000)):
+        for _ in range(ctx.scale(1500, 40000)):
             header, struct, calls = gen_history(r3, family, maxcalls=ctx.scale(7, 12))
             report(ctx, oracle_history(family, header, struct, calls), jcase_history(family, header, struct, calls),
                    family + "-history")
